@@ -876,18 +876,18 @@ Qed.
 
 Lemma by_iso_string_obj : forall eb s T str o, Inv eb s -> by_iso_string s T str = Ok o ->
   exists attr, alookup (snd (parse_iso_string str)) (attrs s T) = Some attr /\
-    ((fst (parse_iso_string str) = 0%Z /\ o = attr) \/
-     (fst (parse_iso_string str) <> 0%Z /\ hget s o = Some (OIsotope attr (fst (parse_iso_string str))))).
+    ((fst (parse_iso_string str) = None /\ o = attr) \/
+     (exists a, fst (parse_iso_string str) = Some a /\ hget s o = Some (OIsotope attr a))).
 Proof.
   intros eb s T str o I H. unfold by_iso_string in H.
   destruct (parse_iso_string str) as [a sym]. simpl.
   destruct (alookup sym (attrs s T)) as [attr|] eqn:A; [|discriminate]. exists attr. split; auto.
   destruct (hget s attr) as [[T' z n sy io|e a'|]|] eqn:G; try discriminate.
-  - destruct (Z.eqb_spec a 0) as [->|N].
-    + inversion H; subst. left. auto.
-    + destruct (get2 (isos s) attr a) as [o'|] eqn:G2; inversion H; subst. right. split; auto.
+  - destruct a as [a|].
+    + destruct (get2 (isos s) attr a) as [o'|] eqn:G2; inversion H; subst. right. exists a. split; auto.
       eapply inv_iso_sound; eauto.
-  - destruct (Z.eqb_spec a 0) as [->|N]; [|discriminate]. inversion H; subst. left. auto.
+    + inversion H; subst. left. auto.
+  - destruct a as [a|]; [discriminate|]. inversion H; subst. left. auto.
 Qed.
 
 Lemma mod_attr_obj : forall eb s str o, Inv eb s -> mod_attr s str = Ok o -> modattr_ok s str o.
@@ -1023,7 +1023,7 @@ Proof.
   - apply L1 in H. destruct H as [-> H]. apply LV. apply (by_name_obj _ _ _ _ _ I) in H.
     destruct H as [[z [sy [io G]]]|[[_ A]|[_ A]]]; eauto using attr_ok_live.
   - apply L1 in H. destruct H as [-> H]. apply LV.
-    destruct (by_iso_string_obj _ _ _ _ _ I H) as [attr [A [[_ ->]|[_ G]]]]; eauto.
+    destruct (by_iso_string_obj _ _ _ _ _ I H) as [attr [A [[_ ->]|[a [_ G]]]]]; eauto.
     apply alookup_In in A. apply (inv_attrs _ _ I) in A. eapply attr_ok_live; eauto.
   - apply L1 in H. destruct H as [-> H]. apply LV. eapply modattr_ok_live. eapply mod_attr_obj; eauto.
   - apply L1 in H. destruct H as [-> H]. destruct (elem_getitem_obj _ _ _ _ _ I H) as [G _]. eauto.
@@ -1100,7 +1100,7 @@ Proof.
   intros eb s s' T str o I X H. unfold by_iso_string in *. destruct (parse_iso_string str) as [a sym].
   rewrite (ext_attrs _ _ X). destruct (alookup sym (attrs s T)) as [attr|] eqn:A; [|discriminate].
   destruct (hget s attr) as [[T' z n sy io|e a'|]|] eqn:G; try discriminate; rewrite (ext_heap _ _ X _ _ G); auto.
-  destruct (Z.eqb a 0); auto.
+  destruct a as [a|]; auto.
   destruct (get2 (isos s) attr a) as [o'|] eqn:G2; [|discriminate].
   rewrite (ext_isos _ _ X _ _ _ G2). exact H.
 Qed.
@@ -1398,22 +1398,20 @@ Proof.
   intros s T str e H. unfold by_iso_string in H. destruct (parse_iso_string str) as [a sym].
   destruct (alookup sym (attrs s T)) as [attr|]; [|congruence].
   destruct (hget s attr) as [[T' z n sy io|e' a'|]|]; try congruence.
-  - destruct (Z.eqb a 0); [discriminate|]. destruct (get2 (isos s) attr a); congruence.
-  - destruct (Z.eqb a 0); congruence.
+  - destruct a as [a|]; [|discriminate]. destruct (get2 (isos s) attr a); congruence.
+  - destruct a as [a|]; congruence.
 Qed.
 
-(* ... and it does raise when the isotope number is not 0 and the element has no such isotope *)
-Theorem missing_iso_string_raises : forall eb s T str e, Inv eb s ->
-  fst (parse_iso_string str) <> 0%Z ->
+(* ... and it does raise when an isotope number is given and the element has no such isotope *)
+Theorem missing_iso_string_raises : forall eb s T str e a, Inv eb s ->
+  fst (parse_iso_string str) = Some a ->
   alookup (snd (parse_iso_string str)) (attrs s T) = Some e ->
-  (forall o, hget s o <> Some (OIsotope e (fst (parse_iso_string str)))) ->
+  (forall o, hget s o <> Some (OIsotope e a)) ->
   step s (ByIsoString T str) = (s, RErr ValueErr).
 Proof.
-  intros eb s T str e I Na A N. simpl. unfold by_iso_string. destruct (parse_iso_string str) as [a sym].
-  simpl in *. rewrite A. destruct (hget s e) as [[T' z n sy io|e' a'|]|]; auto.
-  - destruct (Z.eqb_spec a 0); [congruence|].
-    destruct (get2 (isos s) e a) as [o|] eqn:G2; auto. exfalso. apply (N o). eapply inv_iso_sound; eauto.
-  - destruct (Z.eqb_spec a 0); [congruence|]. reflexivity.
+  intros eb s T str e a I Na A N. simpl. unfold by_iso_string. destruct (parse_iso_string str) as [a' sym].
+  simpl in *. subst a'. rewrite A. destruct (hget s e) as [[T' z n sy io|e' a'|]|]; auto.
+  destruct (get2 (isos s) e a) as [o|] eqn:G2; auto. exfalso. apply (N o). eapply inv_iso_sound; eauto.
 Qed.
 
 Theorem unknown_iso_symbol_raises : forall eb s T str, Inv eb s ->
@@ -1427,7 +1425,7 @@ Qed.
 
 (* D and T take no isotope number: '4-D' *)
 Theorem numbered_DT_raises : forall eb s T str, Inv eb s -> ~ In "D" (map row_sym eb) -> ~ In "T" (map row_sym eb) ->
-  fst (parse_iso_string str) <> 0%Z ->
+  fst (parse_iso_string str) <> None ->
   (snd (parse_iso_string str) = "D" \/ snd (parse_iso_string str) = "T") ->
   step s (ByIsoString T str) = (s, RErr ValueErr).
 Proof.
@@ -1438,7 +1436,7 @@ Proof.
   - exfalso. destruct (inv_el_complete _ _ I _ _ _ _ _ _ G) as [_ [name [i [u [Hin _]]]]].
     assert (In sym (map row_sym eb)) by (apply in_map_iff; exists (z, name, sym, i, u); auto).
     destruct C; subst sym; auto.
-  - rewrite G. destruct (Z.eqb_spec a 0); [congruence|]. reflexivity.
+  - rewrite G. destruct a; [reflexivity|congruence].
 Qed.
 
 (* no isotope has a negative (or zero) mass number: kept by every operation that adds none *)
@@ -1483,17 +1481,16 @@ Proof.
   inversion F; subst. apply IH; auto using inv_step. eapply posiso_step; eauto.
 Qed.
 
-(* 'x-H', '-1-H' ... : when the number does not parse the isotope is -1, and no element has it *)
-Theorem negative_iso_string_raises : forall eb s T str, Inv eb s -> PosIso s ->
-  (fst (parse_iso_string str) < 0)%Z -> step s (ByIsoString T str) = (s, RErr ValueErr).
+(* 'x-H', '-1-H', '0-H' ... : when the number does not parse the isotope is -1; no element has an
+   isotope with a non-positive number *)
+Theorem nonpositive_iso_string_raises : forall eb s T str a, Inv eb s -> PosIso s ->
+  fst (parse_iso_string str) = Some a -> (a <= 0)%Z -> step s (ByIsoString T str) = (s, RErr ValueErr).
 Proof.
-  intros eb s T str I P Ha. simpl. unfold by_iso_string. destruct (parse_iso_string str) as [a sym].
-  simpl in *. destruct (alookup sym (attrs s T)) as [attr|]; auto.
+  intros eb s T str a I P E Ha. simpl. unfold by_iso_string. destruct (parse_iso_string str) as [a' sym].
+  simpl in *. subst a'. destruct (alookup sym (attrs s T)) as [attr|]; auto.
   destruct (hget s attr) as [[T' z n sy io|e' a'|]|]; auto.
-  - destruct (Z.eqb_spec a 0); [lia|].
-    destruct (get2 (isos s) attr a) as [o|] eqn:G2; auto.
-    apply (inv_iso_sound _ _ I) in G2. apply P in G2. lia.
-  - destruct (Z.eqb_spec a 0); [lia|]. reflexivity.
+  destruct (get2 (isos s) attr a) as [o|] eqn:G2; auto.
+  apply (inv_iso_sound _ _ I) in G2. apply P in G2. lia.
 Qed.
 
 (* a charge that is not in the element's ion list raises, and no object is created *)
